@@ -802,6 +802,12 @@ def _res_map_err(eng, st, args, ci):
     return _fork_on_result(eng, st, v, lambda s, x: [(s, 'ret', Enum('Result', 0, {0: Tup([x])}))], on_err)
 
 
+@intrinsic(r'^((std|core)::result::)?Result::<.*>::or_else::<', 'Result::or_else (closure body = real MIR)')
+def _res_or_else(eng, st, args, ci):
+    v, f = args
+    return _fork_on_result(eng, st, v, lambda s, x: [(s, 'ret', Enum('Result', 0, {0: Tup([x])}))], lambda s, e: eng.call_value(s, f, [e], ci.dest_ty))
+
+
 @intrinsic(r'^((std|core)::result::)?Result::<.*>::unwrap_or_else::<', 'Result::unwrap_or_else (closure body = real MIR)')
 def _res_unwrap_or_else(eng, st, args, ci):
     v, f = args
